@@ -1425,6 +1425,12 @@ class Interp:
             if attr == "add":
                 base.items.append(args[0])
                 return None
+        if isinstance(base, bytes) and attr in ("decode", "strip", "startswith", "endswith", "split", "splitlines", "lower", "upper", "replace", "hex"):
+            try:
+                return getattr(base, attr)(*args, **kwargs)
+            except Exception as e:  # noqa: BLE001 - the concrete operation's own exception is the evaluated outcome
+                en = type(e).__name__
+                raise Raised(en, (str(e),), node, BUILTIN_EXC.get(en, (en, "Exception", "BaseException"))) from None
         if isinstance(base, dict | list | tuple | set | frozenset | str | int | float):
             if any(isinstance(a, Sym | SymStr) for a in args):
                 if isinstance(base, dict) and attr in ("get", "pop", "setdefault"):
